@@ -62,6 +62,12 @@ impl MigrationOptions {
         self
     }
 
+    #[cfg(feature = "verif")]
+    pub fn verif_hash_bits(mut self, hash_bits: u32) -> Self {
+        self.hash_bits = hash_bits;
+        self
+    }
+
     #[cfg(test)]
     pub(crate) fn hash_bits(mut self, hash_bits: u32) -> Self {
         self.hash_bits = hash_bits;
